@@ -7,6 +7,9 @@ import Mhd.Model.FramingRef
 namespace Mhd.Framing
 open Mhd.Gen.Framing
 
+set_option linter.unusedSectionVars false
+variable [P : HeadParser]
+
 /-- the rest of the stream cannot be trusted / the reply announces close -/
 def Tainted (s : St) : Prop := s.discard = true ∨ s.stopErr = true ∨ s.keepalive = .mustClose
 
